@@ -472,16 +472,22 @@ def check_authorize(ctx):
         max_depth=4)
     n_reg = n_fw = 0
     for p in t.paths:
-        reg = [c for c in p.conds if c.kind == 'test' and isinstance(
-            c.expr, ast.Compare) and isinstance(c.expr.ops[0], ast.In)
-            and U(c.expr.left) == auth.params[1]
-            and U(c.expr.comparators[0]) == 'self.registered_rules']
+        from ..idioms import as_membership
+        reg = []
+        for c in p.conds:
+            if c.kind != 'test':
+                continue
+            m = as_membership(prog, t.expand, c.expr, c.pol)
+            if m and m[0] == auth.params[1] and \
+                    m[1] == 'self.registered_rules':
+                reg.append((c, m[2]))
         if not reg:
             ctx.ob('C07.AUTHORIZE', False, W, auth.qual, p.cond_text(),
                    'a path of authorize does not test registration of the '
                    'policy name')
             continue
-        registered = reg[0].pol
+        registered = reg[0][1]
+        reg = [reg[0][0]]
         if not registered:
             n_reg += 1
             cls = t.raised_class(p)
